@@ -8,6 +8,7 @@ import (
 	"go/token"
 	"go/types"
 	"math/big"
+	"sort"
 	"strconv"
 	"strings"
 
@@ -33,6 +34,41 @@ type SpecEnv struct {
 	results []Value
 	sig     *types.Signature
 	entry   bool // parameters denote entry values
+	witFr   *Frame
+}
+
+// witnesses: current values of integer-typed named locals (most recent first).
+func (e *SpecEnv) witnesses() []string {
+	fr := e.fr
+	if fr == nil {
+		fr = e.witFr
+	}
+	if fr == nil || e.st == nil {
+		return nil
+	}
+	var names []string
+	for n := range fr.vars {
+		names = append(names, n)
+	}
+	sort.Strings(names)
+	var out []string
+	seen := map[string]bool{}
+	for _, n := range names {
+		pv := fr.vars[n]
+		if pv.K != KPtr || pv.B != BCell || len(pv.Path) != 0 {
+			continue
+		}
+		cv, ok := e.st.cells[pv.Cell]
+		if !ok || cv.K != KInt {
+			continue
+		}
+		if _, lit := isIntLit(cv.S); lit || seen[cv.S] {
+			continue
+		}
+		seen[cv.S] = true
+		out = append(out, cv.S)
+	}
+	return out
 }
 
 func (e *SpecEnv) with(st *State) *SpecEnv {
@@ -481,6 +517,10 @@ func (e *SpecEnv) binary(n *SBin) Value {
 		if a.K == KReal || b.K == KReal {
 			return boolV("(" + n.Op + " " + a.S + " " + b.S + ")")
 		}
+		if a.K == KBV8 && b.K == KBV8 {
+			f := map[string]string{"<": "bvult", "<=": "bvule", ">": "bvugt", ">=": "bvuge"}[n.Op]
+			return boolV("(" + f + " " + a.S + " " + b.S + ")")
+		}
 		return boolV(mkCmp(n.Op, e.asInt(a), e.asInt(b)))
 	case "+":
 		if a.K == KStr && b.K == KStr {
@@ -621,7 +661,24 @@ func (e *SpecEnv) quant(n *SQuant) Value {
 	if body == tTrue || body == tFalse {
 		return boolV(body)
 	}
-	return boolV("(" + q + " (" + strings.Join(binders, " ") + ") " + body + ")")
+	qt := "(" + q + " (" + strings.Join(binders, " ") + ") " + body + ")"
+	if !n.Forall && len(n.Vars) == 1 {
+		// (exists k. P(k)) is equivalent to itself or-ed with instances at
+		// candidate witnesses: integer locals live in the frame.
+		if _, kind, _ := e.sortOfName(n.Vars[0].Type); kind == KInt {
+			var ds []string
+			for _, w := range e.witnesses() {
+				ds = append(ds, e.bind(n.Vars[0].Name, intV(w)).evalBool(n.Body))
+				if len(ds) >= 6 {
+					break
+				}
+			}
+			if len(ds) > 0 {
+				return boolV(mkOr(append(ds, qt)...))
+			}
+		}
+	}
+	return boolV(qt)
 }
 
 func (e *SpecEnv) call(n *SCall) Value {
